@@ -329,7 +329,9 @@ func Convert(v Val, t reflect.Type, cross bool) (reflect.Value, int) {
 		switch v.C {
 		case 'f':
 			x = v.F
-			if k == reflect.Float32 && !math.IsNaN(x) && float64(float32(x)) != x {
+			if k == reflect.Float32 && !math.IsNaN(x) && !math.IsInf(x, 0) && math.IsInf(float64(float32(x)), 0) {
+				// out of float32's range; inside the range the value is rounded to the nearest
+				// float32 as every Go conversion does
 				return out, convUnspec
 			}
 		case 'i':
